@@ -357,4 +357,62 @@ theorem ElemRdS.ref_bad (env : Env F) (hcfg : env.lex.criSkipsComments = true) (
   rw [hcri]
   simp
 
+/-! ## a typed select value whose keyword names no member of the select -/
+
+/-- `SDAI_Select::STEPread` case B on `KEYWORD blanks (` where the keyword names none of the select's non-entity members:
+    nothing is read, WARNING, the stream rests right behind the `(` -/
+theorem selectRead_foreign (env : Env F) (sd : SelectD) (n0 : Byte) (ns : List Byte)
+    (hn0 : isAlpha n0 = true) (hns : ns.all selc = true)
+    (hfind : sd.members.find? (fun x => x.name == bytesToString (upperBytes (n0 :: ns)) && !x.ty.isEntity) = none)
+    (sA : List Byte) (hsA : sA.all isSpace = true) (l : List Byte) (sk : Bool) (r : List Byte) :
+    selectRead env sd (G l (n0 :: (ns ++ (sA ++ 40 :: r))) sk) =
+      .ok (.warning, .atom .unset, G (40 :: (sA.reverse ++ (ns.reverse ++ n0 :: l))) r sk) := by
+  obtain ⟨hn0s, _, _, hn040, _, _, _, _, _⟩ := alpha_facts hn0
+  have hsel0 : selc n0 = true := by simp [selc, hn0s, hn040]
+  unfold selectRead
+  rw [show (G l (n0 :: (ns ++ (sA ++ 40 :: r))) sk).ws = _ from ws_good0 l n0 _ sk hn0s]
+  simp only [bind, Except.bind, pure, Except.pure]
+  rw [shiftInto_good 0 l n0 _ sk hn0s]
+  simp only [hn0, if_true]
+  rw [selNameLoop_word ns hns sA hsA _ sk _ [] n0 (n0 :: l) hsel0 (by simp only [G, List.length_append, List.length_cons]; omega)]
+  simp only [List.nil_append, hfind, G_good, Bool.not_true, Bool.false_eq_true, if_false]
+
+/-- **a typed select value with a foreign keyword** (`FOO(1.5` in front of the value's own `)`, or of a `,`): for a select
+    attribute, the pseudo-parameter `KEYWORD blanks ( value` - keyword naming no non-entity member, `value` any text without
+    `,` `)` `;` that starts with neither a blank nor `/` - is read with WARNING to the unset value and the stream rests at
+    the delimiter behind `value`; that delimiter is normally the value's own `)`, which the instance reader then takes for
+    the end of the parameter list (see `C03_foreign_select_keyword_flawed`) -/
+theorem attr_select_foreign (env : Env F) (strict : Bool) (a : AttrD) (n : String) (hty : a.ty = .one (.select n))
+    (hder : a.derived = false) (sd : SelectD) (hsd : env.dict.select? n = some sd)
+    (n0 : Byte) (ns : List Byte) (hn0 : isAlpha n0 = true) (hns : ns.all selc = true)
+    (hfind : sd.members.find? (fun x => x.name == bytesToString (upperBytes (n0 :: ns)) && !x.ty.isEntity) = none)
+    (sA : List Byte) (hsA : sA.all isSpace = true)
+    (j0 : Byte) (js : List Byte) (hj0s : isSpace j0 = false) (hj047 : j0 ≠ 47)
+    (hj : ∀ b ∈ j0 :: js, delimAt env.lex attrDelims b = false)
+    (hsemi : env.lex.criStopsAtSemicolon = true → ∀ b ∈ j0 :: js, b ≠ 59)
+    (l : List Byte) (sk : Bool) (d : Byte) (rest : List Byte) (hd : d = 44 ∨ d = 41) :
+    attrSTEPread env strict a (G l (n0 :: (ns ++ (sA ++ 40 :: (j0 :: (js ++ d :: rest))))) sk) =
+      .ok (.warning, .one (.atom .unset),
+           G ((j0 :: js).reverse ++ (40 :: (sA.reverse ++ (ns.reverse ++ n0 :: l)))) (d :: rest) sk) := by
+  obtain ⟨hn0s, _, _, _, _, _, _, _, _⟩ := alpha_facts hn0
+  have hn036 : (n0 == 36) = false := by
+    have : n0 ≠ 36 := by intro h; rw [h] at hn0; exact absurd hn0 (by decide)
+    simpa using this
+  have hn044 : (n0 == 44) = false := by
+    have : n0 ≠ 44 := by intro h; rw [h] at hn0; exact absurd hn0 (by decide)
+    simpa using this
+  have hn041 : (n0 == 41) = false := by
+    have : n0 ≠ 41 := by intro h; rw [h] at hn0; exact absurd hn0 (by decide)
+    simpa using this
+  have hsr := selectRead_foreign env sd n0 ns hn0 hns hfind sA hsA l sk (j0 :: (js ++ d :: rest))
+  unfold attrSTEPread
+  rw [show (G l (n0 :: (ns ++ (sA ++ 40 :: (j0 :: (js ++ d :: rest))))) sk).ws = _ from ws_good0 l n0 _ sk hn0s]
+  simp only [bind, Except.bind, pure, Except.pure]
+  rw [peekC_good]
+  simp only [hder, Bool.false_eq_true, if_false, hn036, hn044, hn041, Bool.or_self, hty, hsd, hsr]
+  rw [show checkRemainingInput env.lex (some attrDelims) (G (40 :: (sA.reverse ++ (ns.reverse ++ n0 :: l))) (j0 :: (js ++ d :: rest)) sk) Sev.warning =
+    (G ((j0 :: js).reverse ++ (40 :: (sA.reverse ++ (ns.reverse ++ n0 :: l)))) (d :: rest) sk, Sev.warning.greater .warning) from
+    cri_junk env.lex j0 js hj0s hj047 hj hsemi _ rest d false sk .warning hd]
+  rfl
+
 end StepModel.P21.RLemmas
